@@ -5,6 +5,7 @@ import TaskctlVerif.Model.Timeout
 import TaskctlVerif.Model.Cli
 import TaskctlVerif.Model.Cancel
 import TaskctlVerif.Model.CtxHooks
+import TaskctlVerif.Model.Layers
 /-!
 Line-protocol oracle: one case per line on stdin (`<family> <payload>`), one observation per line on
 stdout.  Compiled from exactly the definitions the theorems are about (core Lean only).
@@ -173,6 +174,54 @@ def timedCase (fields : List String) : String :=
   let o := Runner.runTask (Runner.timed t ((kv fields "T").toNat?) D)
   s!"trace={",".intercalate (o.trace.map tokStr)}|err={b2s o.err}|errored={b2s o.errored}|skipped={b2s o.skipped}|exit={o.exitCode.toInt}"
 
+/-! ### layering -/
+
+/-- `env parent=u-parent context=q-context task=…` -/
+def envCase (fields : List String) : String :=
+  let lvl (n : String) : Layers.Env String :=
+    match fields.find? (fun f => f.startsWith (n ++ "=")) with
+    | some f => [("VAL", (f.drop (n.length + 1)).toString)]
+    | none => []
+  let L : Layers.EnvLevels String :=
+    { parent := lvl "parent", runner := [("ARGS", "")], context := lvl "context", envFile := lvl "envfile",
+      task := lvl "task", stage := lvl "stage", variation := lvl "variation" }
+  s!"N={(Layers.get (Layers.procEnv L.parent (Layers.jobEnv L "t")) "VAL").getD ""}"
+
+/-- `dir stage=1 task=0 ctx=1` -/
+def dirCase (fields : List String) : String :=
+  let d (k v : String) := if kv fields k = "1" then v else ""
+  let r := Layers.jobDir (d "stage" "sd") (d "task" "td") (d "ctx" "cd") "start"
+  s!"cond={r} before={r} cmd={r} after={r}"
+
+def parseEnvList (s : String) : Layers.Env String :=
+  if s = "-" then [] else (splitNonEmpty s ",").filterMap fun e =>
+    match e.splitOn "=" with
+    | [k, v] => some (k, v)
+    | _ => none
+
+/-- `layers task=<env>/<vars>/<dir> stages=<env>/<vars>/<dir>;…` (a dash for empty): what each stage execution and a later direct
+run receive, for the canonical schedule "all copies, all runs, write-backs, direct run" -/
+def layersCase (fields : List String) : String :=
+  let cfg3 (s : String) : (Layers.Env String × Layers.Env String × String) :=
+    match s.splitOn "/" with
+    | [e, v, d] => (parseEnvList e, parseEnvList v, if d = "-" then "" else d)
+    | _ => ([], [], "")
+  let (te, tv, td) := cfg3 (kv fields "task")
+  let t₀ : Layers.TaskCfg String := { env := te, vars := tv, dir := td }
+  let ovs := ((kv fields "stages").splitOn ";").map cfg3
+  let ov (i : Nat) : Layers.StageOv String :=
+    match ovs.getD i ([], [], "") with
+    | (e, v, d) => { env := e, vars := v, dir := d }
+  let n := ovs.length
+  let acts := (List.range n).map Layers.Act.copy ++ (List.range n).reverse.map Layers.Act.run ++
+    (List.range n).map Layers.Act.writeback ++ [Layers.Act.direct]
+  let σ := Layers.run ov (Layers.init t₀) acts
+  let showCfg (c : Option (Layers.TaskCfg String)) : String :=
+    match c with
+    | some c => s!"A={(Layers.get c.env "A").getD ""} B={(Layers.get c.env "B").getD ""} x={(Layers.get c.vars "x").getD ""} y={(Layers.get c.vars "y").getD ""} dir={if c.dir = "" then "-" else c.dir}"
+    | none => "none"
+  "|".intercalate ((List.range n).map (fun i => s!"s{i}:" ++ showCfg (σ.seen i)) ++ ["direct:" ++ showCfg σ.direct])
+
 def handle (line : String) : String :=
   let line := line.trimAscii.toString
   match line.splitOn " " with
@@ -183,6 +232,9 @@ def handle (line : String) : String :=
   | "cli" :: _ => cliCase line
   | "cancel" :: rest => cancelCase rest
   | "hooks" :: rest => hooksCase rest
+  | "env" :: rest => envCase rest
+  | "dir" :: rest => dirCase rest
+  | "layers" :: rest => layersCase rest
   | _ => "bad-op"
 
 partial def loop (h : IO.FS.Stream) (out : IO.FS.Stream) : IO Unit := do
